@@ -710,6 +710,48 @@ def r8(ctx, rep):
     rep.check(n_dbg >= 5 and n_log >= 5, "sites", f"expected >= 5 debug-formatted hash-bearing values (most of them in log macros), found {n_dbg} ({n_log} in log / panic macros)")
 
 
+
+def r9(ctx, rep):
+    rep.rule("C11.R9", "source ids do not depend on the order in which the caller enumerates the files", floor=1)
+    syn = ctx.syn
+    f = syn.fn("SourceTree::new", crate="prqlc")
+    prm = [p_["name"] for p_ in f.get("params", []) if isinstance(p_, dict)]
+    # the loop (or chain) whose `enumerate()` index becomes the id
+    enum = [n for n in walk(f["body"]) if n.get("k") == "mcall" and n["m"] == "enumerate"]
+    ok, why = False, "no `.enumerate()` that numbers the sources was found"
+    for e in enum:
+        # follow the enumerated sequence back: method chain receivers and locals
+        cur, seen_sort, steps = e["r"], False, 0
+        while cur is not None and steps < 12:
+            steps += 1
+            k = cur.get("k")
+            if k == "mcall":
+                if cur["m"] in ("sorted", "sorted_by", "sorted_by_key", "sorted_unstable", "sorted_unstable_by", "sorted_unstable_by_key", "sorted_by_cached_key"):
+                    seen_sort = True
+                cur = cur["r"]
+            elif k == "path" and "::" not in cur["p"]:
+                name = cur["p"]
+                if name in prm:
+                    break
+                # an in-place sort of the local between its definition and the loop
+                if any(x.get("k") == "mcall" and x["m"] in ("sort", "sort_by", "sort_by_key", "sort_unstable", "sort_unstable_by", "sort_unstable_by_key", "sort_by_cached_key") and show(x["r"]) == name for x in walk(f["body"])):
+                    seen_sort = True
+                init = None
+                for st in walk(f["body"]):
+                    if st.get("k") == "local" and st["pat"].get("k") == "p_ident" and st["pat"]["n"] == name and st.get("init") is not None:
+                        init = st["init"]
+                        if "BTreeMap" in (st.get("ty") or "") or "BTreeMap" in show(st["init"], maxdepth=8):
+                            seen_sort = True
+                cur = init
+            elif k in ("paren", "ref", "try"):
+                cur = cur["e"]
+            else:
+                break
+        ok = ok or seen_sort
+        why = "the enumerated sequence is the caller's iterator as it comes (no sort by path in between)"
+    rep.check(ok, "ids-by-sorted-path", f"SourceTree::new gives the n-th file of the iterator the id n: {why}. The CLI collects a directory into a HashMap first, so the ids - which are part of every span in "
+              "`prqlc parse`, the debug log and the RQ / PL JSON - change from run to run", file=f["file"], line=f["l"], fn=f["path"])
+
 def run(ctx, rep):
-    for r in (r1_r2, r3, r4, r5, r6, r7, r8):
+    for r in (r1_r2, r3, r4, r5, r6, r7, r8, r9):
         rep.guard(r, ctx)
